@@ -1,9 +1,154 @@
 import Tup.DrvUtil
-/-! Driver for group Ph (stub; the group's owner fills it in). -/
+import Tup.Model.Placeholder
+import Tup.Spec.Term
+import Tup.Spec.Decode
+/-!
+  Driver for the placeholder group (C07, C13, C14).
+
+  Model requests (reply `ok …` / `err value|index`):
+    lines  <ph> <mode> <fmt> <noesc>                      -> ok hex,hex,…   (to_lines)
+    stream cur:<save>:<lf>  <ph> <mode> <fmt>             -> ok hex         (to_stream_at_cursor)
+    stream lf:<noesc>       <ph> <mode> <fmt>             -> ok hex         (to_stream_with_linefeeds)
+    stream abs:<x>:<y>      <ph> <mode> <fmt>             -> ok hex         (to_stream_abs_position)
+    stream disp:<x>:<y>|-:<save>:<lf> <ph> <mode> <fmt>   -> ok hex         (to_stream dispatch)
+    dispmode <fewer>                                      -> a256i a256p skip first other
+    getfmt none | idx <n> | rgb <r> <g> <b>               -> none | hex
+  where <ph> = id pid startCol startRow endCol endRow (integers, may be negative),
+        <mode> = a256i a256p skip first other,
+        <fmt> = n | b=<hex> | r=<defaulthex>[/<row>:<hex>…] | c=<defaulthex>[/<col>.<row>:<hex>…].
+
+  Specification request (the independent terminal + decoding rules on given BYTES):
+    spec <W> <H> <cx> <cy> <cubFromW> <restoreSgr> <onlcr> <fg> <ul> <bg> <hex>
+      -> cur=<cx>,<cy> sgr=<fg>/<ul>/<bg> scrolled=<n> ph=<y>,<x>,<id>,<pid>,<row>,<col>;…  cells=<y>,<x>,<ch>,<m.m.m>,<fg>,<ul>,<bg>;…
+    colours: `-` default, `i<n>`, `r<r>.<g>.<b>`; `cells` lists every cell that is not blank.
+-/
 namespace Tup.Drv.Ph
-open Tup
+open Tup Tup.Spec
+
+def b? (s : String) : Option Bool := if s = "1" then some true else if s = "0" then some false else none
+
+def parseMode : List String → Option Mode
+  | [a, b, c, f, o] => do
+      let a ← b? a; let b ← b? b; let c ← b? c
+      let f ← f.toNat?; let o ← o.toNat?
+      pure ⟨a, b, c, f, o⟩
+  | _ => none
+
+def parsePh : List String → Option RawPlaceholder
+  | [a, b, c, d, e, f] => do
+      pure ⟨← a.toInt?, ← b.toInt?, ← c.toInt?, ← d.toInt?, ← e.toInt?, ← f.toInt?⟩
+  | _ => none
+
+def lookupD {κ} [BEq κ] (tab : List (κ × Bytes)) (dflt : Bytes) (k : κ) : Bytes :=
+  match tab.lookup k with
+  | some b => b
+  | none => dflt
+
+def parseEntries {κ} (key : String → Option κ) (es : List String) : Option (List (κ × Bytes)) :=
+  es.mapM fun e => match e.splitOn ":" with
+    | [k, h] => do pure (← key k, ← ofHex h)
+    | _ => none
+
+def parseFmt (s : String) : Option Fmt :=
+  if s = "n" then some .none
+  else if s.startsWith "b=" then (ofHex (s.drop 2).toString).map .bytes
+  else if s.startsWith "r=" then
+    match (s.drop 2).toString.splitOn "/" with
+    | d :: es => do
+        let d ← ofHex d
+        let tab ← parseEntries String.toNat? es
+        pure (.row (lookupD tab d))
+    | [] => none
+  else if s.startsWith "c=" then
+    match (s.drop 2).toString.splitOn "/" with
+    | d :: es => do
+        let d ← ofHex d
+        let tab ← parseEntries (fun k => match k.splitOn "." with
+          | [c, r] => do pure (← c.toNat?, ← r.toNat?)
+          | _ => none) es
+        pure (.cell fun c r => lookupD tab d (c, r))
+    | [] => none
+  else none
+
+def errStr : PhErr → String
+  | .value => "err value"
+  | .index => "err index"
+
+def outLines : Except PhErr (List Bytes) → String
+  | .error e => errStr e
+  | .ok ls => "ok " ++ (if ls.isEmpty then "" else ",".intercalate (ls.map hexOut))
+
+def outBytes : Except PhErr Bytes → String
+  | .error e => errStr e
+  | .ok b => "ok " ++ hexOut b
+
+def parseColor (s : String) : Option (Option Color) :=
+  if s = "-" then some none
+  else if s.startsWith "i" then (s.drop 1).toString.toNat?.map fun n => some (.idx n)
+  else if s.startsWith "r" then
+    match (s.drop 1).toString.splitOn "." with
+    | [r, g, b] => do pure (some (.rgb (← r.toNat?) (← g.toNat?) (← b.toNat?)))
+    | _ => none
+  else none
+
+def colorStr : Option Color → String
+  | none => "-"
+  | some (.idx n) => s!"i{n}"
+  | some (.rgb r g b) => s!"r{r}.{g}.{b}"
+
+def specReply (t : Term) : String :=
+  let ph := (t.decodeScreen.zipIdx.flatMap fun (row, y) =>
+    row.zipIdx.filterMap fun (d, x) => d.map fun d =>
+      s!"{y},{x},{d.imageId},{d.placementId},{d.row},{d.col}")
+  let cells := (List.range t.h).flatMap fun y => (List.range t.w).filterMap fun x =>
+    let c := t.cells y x
+    if c = Cell.blank then none
+    else some s!"{y},{x},{c.ch},{".".intercalate (c.marks.map toString)},{colorStr c.fg},{colorStr c.ul},{colorStr c.bg}"
+  s!"cur={t.cx},{t.cy} sgr={colorStr t.sgr.fg}/{colorStr t.sgr.ul}/{colorStr t.sgr.bg} scrolled={t.scrolled} ph={";".intercalate ph} cells={";".intercalate cells}"
+
+def styleStream (style : String) (r : RawPlaceholder) (m : Mode) (fmt : Fmt) : Option (Except PhErr Bytes) :=
+  match style.splitOn ":" with
+  | ["cur", s, l] => do pure (toStreamAtCursor r m fmt (← b? s) (← b? l))
+  | ["lf", n] => do pure (toStreamLinefeeds r m fmt (← b? n))
+  | ["abs", x, y] => do pure (toStreamAbs r (← x.toNat?) (← y.toNat?) m fmt)
+  | ["disp", "-", s, l] => do pure (toStream r none m fmt (← b? s) (← b? l))
+  | ["disp", x, y, s, l] => do pure (toStream r (some (← x.toNat?, ← y.toNat?)) m fmt (← b? s) (← b? l))
+  | _ => none
 
 def handle : List String → String
+  | ["lines", a, b, c, d, e, f, m1, m2, m3, m4, m5, fmt, ne] =>
+      match parsePh [a, b, c, d, e, f], parseMode [m1, m2, m3, m4, m5], parseFmt fmt, b? ne with
+      | some r, some m, some fm, some ne => if m.valid then outLines (toLines r m fm ne) else errStr .value
+      | _, _, _, _ => "bad"
+  | ["stream", style, a, b, c, d, e, f, m1, m2, m3, m4, m5, fmt] =>
+      match parsePh [a, b, c, d, e, f], parseMode [m1, m2, m3, m4, m5], parseFmt fmt with
+      | some r, some m, some fm => if !m.valid then errStr .value else (match styleStream style r m fm with
+          | some x => outBytes x
+          | none => "bad")
+      | _, _, _ => "bad"
+  | ["dispmode", fewer] => match b? fewer with
+      | some f =>
+          let m := displayMode f
+          s!"{boolStr m.allow256Image} {boolStr m.allow256Placement} {boolStr m.skipPlacementIfZero} {m.firstLevel} {m.otherLevel}"
+      | none => "bad"
+  | ["getfmt", "none"] => "none"
+  | ["getfmt", "idx", n] => match n.toNat? with
+      | some n => hexOut ((getFormatting (.idx n)).rowB 0)
+      | none => "bad"
+  | ["getfmt", "rgb", r, g, b] => match r.toNat?, g.toNat?, b.toNat? with
+      | some r, some g, some b => hexOut ((getFormatting (.rgb r g b)).rowB 0)
+      | _, _, _ => "bad"
+  | ["spec", w, h, cx, cy, cub, rs, nl, fg, ul, bg, hex] =>
+      match w.toNat?, h.toNat?, cx.toNat?, cy.toNat?, b? cub, b? rs, b? nl with
+      | some w, some h, some cx, some cy, some cub, some rs, some nl =>
+          (match parseColor fg, parseColor ul, parseColor bg, ofHex hex with
+          | some fg, some ul, some bg, some bytes =>
+              let t0 : Term := { Term.init w h { cubFromW := cub, restoreSgr := rs } with cx := cx, cy := cy, sgr := ⟨fg, ul, bg⟩ }
+              let toks := parse bytes
+              let toks := if nl then onlcr toks else toks
+              specReply (t0.feedAll toks)
+          | _, _, _, _ => "bad")
+      | _, _, _, _, _, _, _ => "bad"
   | _ => "bad"
 
 end Tup.Drv.Ph
